@@ -12,7 +12,9 @@ open NauyacaVerif.Drv Misc
              | `pa:<g|u>.<hop>:<g|u>.<hop>`                two OVERLAPPING calls; only as the last op.  Its step shows
                                                            both serialisations: `<recA,recB;store>~<recA,recB;store>`
                                                            (first A then B ~ first B then A; records always in the order A,B)
-    hop    ::= `h.p.<f|x>`                                 x = unreadable certificate
+    hop    ::= `h.p.<f|x>`                                 x = verification cannot be completed: unreadable certificate,
+                                                           or the pin store fails at lookup (`Misc.connectStoreFault`,
+                                                           same outcome and trace as the unreadable case)
     output ::= `ok <step>*`, step ::= `<rec,rec,…|->;<store'>`
     rec    ::= `A:<n>` | `C<old>/<new>:<n>` | `R:<n>`      n = number of writes the peer received -/
 
